@@ -579,9 +579,12 @@ class SparselyBin(Factory, Container):
             if isinstance(json["bins"], dict):
                 for i in json["bins"]:
                     try:
-                        int(i)
+                        canonical = str(int(i)) == i
                     except ValueError:
                         raise JsonFormatException(i, "SparselyBin.bins key must be an integer")
+                    if not canonical:
+                        # " 5", "-0", "+7", "007": two keys could collapse into one bin
+                        raise JsonFormatException(i, "SparselyBin.bins key must be an integer in canonical form")
 
                 bins = {int(i): binsFactory.fromJsonFragment(v, binsName) for i, v in json["bins"].items()}
 
